@@ -258,6 +258,9 @@ func modelCopy(o tengo.Object) tengo.Object {
 		return &tengo.Map{Value: copyMap(v.Value)}
 	case *tengo.UserFunction:
 		return &tengo.UserFunction{Name: v.Name, Value: v.Value}
+	case *tengo.BuiltinFunction:
+		// the copy keeps the name (bd9c161; FINDINGS.md, observation O2)
+		return &tengo.BuiltinFunction{Name: v.Name, Value: v.Value}
 	}
 	return o // Bool, Undefined, compiled function sentinel
 }
